@@ -234,6 +234,7 @@ def run(ctx):
                "loading opcode 0x00 error-stops, 0x01 stops (and is still loaded into IR for the continue key), "
                "any other byte does not halt", "control word %#05x" % a, repr(h))
     from .. import fetchlatch
+    fetchlatch.obligations(ctx, prefix="fetch/")      # the byte that can halt is a byte read from the bus by the loading word
     fetchlatch.stop_edge_advances(ctx)
     chk.floor("IR-loading control words", nload, 15)
     # words that do not load the IR cannot halt in the IR stage (no pending commit)
